@@ -243,4 +243,22 @@ theorem wkt_coreOK (c : Crs) (st : Style) (hw : wellFormed c = true) : CoreOK c 
     · rw [f14, e]; rfl
     · exact wkt_datumSit c st hdw _ (by rw [f15, e]) (by rw [f16, e])
 
+theorem wktFinish_dc (x : SR XR) : (wktFinish x).datumCode = x.datumCode := by
+  unfold wktFinish
+  simp only []
+  (repeat' split) <;> rfl
+
+attribute [local irreducible] ellpsOf datumCodeOf unitNameOf quoted in
+theorem wktFinish_datumCode (c : Crs) (st : Style) : (wktFinish (wktRaw c st)).datumCode = datumCodeOf (wktDatumName c st) := by
+  rw [wktFinish_dc]
+  by_cases hk : c.kind = .geog
+  · rw [wktRaw_geog c st hk]
+  · rw [wktRaw_proj c st hk]
+
+/-- no WKT datum name the renderer writes becomes the literal code `WGS84` (the code of PROJ.4 `+datum=WGS84`) -/
+theorem datumCode_notWGS84 (c : Crs) (st : Style) : datumCodeOf (wktDatumName c st) ≠ s "WGS84" := by
+  have h : allDatumNames.all (fun n => decide (datumCodeOf n ≠ s "WGS84")) = true := by decide +kernel
+  rw [List.all_eq_true] at h
+  simpa using h _ (wktDatumName_mem c st)
+
 end GeomV.C20
